@@ -84,6 +84,11 @@ def whole (evs : List Ev) (k : String) : List Ev := evs.filter (·.name = k)
 /-- what the scanner yields: every child whose name it dispatches on, in document order -/
 def stream (evs : List Ev) : List Ev := evs.filter (fun e => scannerCases.contains e.name)
 
+/-- the scanner's dispatch compares the element's own local name — not a lower-cased or otherwise normalised
+    copy — with its case labels, as `stream` assumes (XML names are case sensitive and so is the struct decoder:
+    an unknown `<Node>` must not reach the node decoder) -/
+theorem scanner_dispatch_exact : scannerSwitchTags = ["se.Name.Local"] := by decide
+
 /-- the scanner dispatches on exactly the element names the `OSM` struct decodes -/
 theorem scanner_cases_eq_osm_fields : scannerCases = decodableChildren "OSM" := by decide
 
